@@ -23,6 +23,55 @@ def mkdt(c, naive):
     return dt.datetime(c["y"], c["mo"], c["d"], c["h"], c["mi"], c["s"], c["us"], tzinfo=tz)
 
 
+class VarTz(dt.tzinfo):
+    """a zone whose offset depends on the date (daylight saving; a zone that moved its standard meridian): ONE tzinfo object shared by many datetimes"""
+
+    def __init__(self, winter, summer, months=(4, 10)):
+        self.winter, self.summer, self.months = winter, summer, months
+
+    def utcoffset(self, d):
+        return dt.timedelta(seconds=self.summer if d is not None and self.months[0] <= d.month <= self.months[1] else self.winter)
+
+    def dst(self, d):
+        return dt.timedelta(0)
+
+    def tzname(self, d):
+        return "var"
+
+
+def shared_zones():
+    zs = [VarTz(3600, 7200), VarTz(-18000, -14400), VarTz(0, 3600, (3, 9)), VarTz(34200, 37800), VarTz(-1172, 0, (7, 12))]
+    try:
+        import zoneinfo
+        for name in ("Europe/Berlin", "America/New_York", "Australia/Sydney"):
+            zs.append(zoneinfo.ZoneInfo(name))
+    except Exception:  # noqa  (no zone database here: the hand-made zones cover the case)
+        pass
+    return zs
+
+
+def zone_lines(rng, n):
+    """datetimes that share one date-dependent tzinfo object, written one after the other, alternating between its offsets"""
+    lines = []
+    for z in shared_zones():
+        for i in range(n):
+            prec, con = rng.choice(PCS)
+            c = rand_civil(rng, boundary=0.3)
+            c["y"] = rng.randint(1975, 2035)
+            c["mo"] = rng.choice([1, 2, 12, 11] if i % 2 else [6, 7, 8, 5])
+            c["d"] = min(c["d"], 28)
+            c.pop("offs", None)
+            x = dt.datetime(c["y"], c["mo"], c["d"], c["h"], c["mi"], c["s"], c["us"], tzinfo=z)
+            sec = int(x.utcoffset().total_seconds())
+            c["off"] = int(sec / 60)
+            if sec - c["off"] * 60:
+                c["offs"] = sec - c["off"] * 60
+            ok, exc, out, ok2, out2 = fmt(x, prec, con)
+            lines.append({"form": "dt", "first": [], "c": c, "naive": False, "src": [], "prec": prec, "con": con, "ok": ok, "exc": exc, "out": codes(out), "ok2": ok2, "out2": codes(out2),
+                          "hasb": False, "cb": {}, "outb": [], "zone": "shared:" + str(getattr(z, "key", "hand-made"))})
+    return lines
+
+
 def fmt(x, prec, con):
     """the observed composite; returns (ok, exc, text, ok2, text2)"""
     from stix2.utils import format_datetime, parse_into_datetime
@@ -195,6 +244,9 @@ def run(chk):
         else:
             s, c2 = spell(rng, c)
             lines.append(observe("str", None, False, s, prec, con, later_neighbour(rng, c2)))
+    zl = zone_lines(rng, 30 if quick else 600)
+    chk.stages["S3_shared_zone_objects"] = {"lines": len(zl), "zones": sorted({x["zone"] for x in zl})}
+    lines += [{k: v for k, v in x.items() if k != "zone"} for x in zl]
     lines += property_lines(rng, 300 if quick else 5000)
     for ln in lines:
         chk.case(sig(ln))
